@@ -46,7 +46,7 @@ def match_known(known, prop, v):
 
 
 def write_replay(prop, v):
-    d = os.path.join(VERIF, "replays", "new")
+    d = os.path.join(VERIF, "replays", "new") if ws.TAG == "main" else os.path.join(ws.WORK, "replays_new")
     os.makedirs(d, exist_ok=True)
     h = hashlib.sha1(json.dumps(v, sort_keys=True).encode()).hexdigest()[:12]
     path = os.path.join(d, "%s_%s.json" % (prop, h))
@@ -56,7 +56,7 @@ def write_replay(prop, v):
 
 
 def write_evidence(prop, tier, seed, level, coverage, wall, violations, assumptions):
-    d = os.path.join(VERIF, "evidence")
+    d = os.path.join(VERIF, "evidence") if ws.TAG == "main" else os.path.join(ws.WORK, "evidence")
     os.makedirs(d, exist_ok=True)
     ev = {
         "property_id": prop,
